@@ -16,6 +16,7 @@
 High level API for the polyply itp generator
 """
 import sys
+from collections import ChainMap
 import networkx as nx
 from pathlib import Path
 import vermouth
@@ -29,6 +30,12 @@ except ImportError:
     deferred_open = open
 from vermouth.file_writer import DeferredFileWriter
 from vermouth.citation_parser import citation_formatter
+# newer vermouth versions cite themselves with a key that lives in
+# the common citations and not in the force field
+try:
+    from vermouth.data import COMMON_CITATIONS
+except ImportError:
+    COMMON_CITATIONS = {}
 from vermouth.graph_utils import make_residue_graph
 from polyply import (MetaMolecule, ApplyLinks, Monomer, MapToMolecule)
 from polyply.src.graph_utils import find_missing_edges
@@ -122,8 +129,12 @@ def gen_params(name="polymer", outpath=Path("polymer.itp"), inpath=[],
     with deferred_open(outpath, 'w') as outfile:
         header = [ ' '.join(sys.argv) + "\n" ]
         header.append("Please cite the following papers:")
+        citation_map = ChainMap(meta_molecule.molecule.force_field.citations,
+                                COMMON_CITATIONS)
         for citation in meta_molecule.molecule.citations:
-            cite_string =  citation_formatter(meta_molecule.molecule.force_field.citations[citation])
+            if citation not in citation_map:
+                continue
+            cite_string =  citation_formatter(citation_map[citation])
             LOGGER.info("Please cite: " + cite_string)
             header.append(cite_string)
 
